@@ -833,8 +833,19 @@ func c19SharedEvent(c *mon.Ctx, r *gen.Rand) {
 			}
 			for _, form := range formNames {
 				text := forms[form]
-				for _, pname := range []string{"untrusted", "trusted", "trusted-redacted", "trusted-with-empty-event-id"} {
-					parse := parsers[pname]
+				for _, pname := range []string{"untrusted", "trusted", "trusted-redacted", "trusted-with-empty-event-id", "untrusted+Redact()", "trusted+Redact()"} {
+					// (+Redact(): the holder redacts the event before it shares it - after that it is as read-only as any other)
+					parse := parsers[strings.TrimSuffix(pname, "+Redact()")]
+					if strings.HasSuffix(pname, "+Redact()") {
+						inner := parse
+						parse = func(b []byte) (gmsl.PDU, error) {
+							p, err := inner(b)
+							if err == nil {
+								p.Redact()
+							}
+							return p, err
+						}
+					}
 					c.Case("shared-event:"+string(ver)+":"+form+":"+pname, map[string]any{"version": ver, "form": form, "parser": pname, "event": string(text)}, func() {
 						ref1, err := parse(text)
 						if err != nil {
